@@ -1028,3 +1028,47 @@ Proof.
   intro H. destruct s as [m t]. unfold healthy_bytes, write, write_in. fold (save (St m t)).
   rewrite (save_healthy m t H). simpl. eexists; reflexivity.
 Qed.
+
+(* ------------------------------------------------------------------ boolean checkers for the hypotheses *)
+Definition special_tags (m : model) : list atom := a_asset :: a_scene :: map ltag (mlibs m).
+Definition wf_root_b (m : model) (root : list rchild) : bool :=
+  forallb (fun t => Nat.leb (count_tag t root) 1) (special_tags m).
+Fixpoint nodup_b (l : list atom) : bool :=
+  match l with [] => true | x :: r => negb (existsb (N.eqb x) r) && nodup_b r end.
+Definition wf_libs_b (m : model) : bool := nodup_b (special_tags m) && negb (N.eqb a_asset a_scene).
+Definition healthy_b (m : model) : bool :=
+  match mscene m with None => true | Some sid => existsb (fun o => N.eqb (oid o) sid) (scenes_of m) end.
+
+Lemma managed_special m t : managed m t = true -> In t (special_tags m).
+Proof.
+  unfold managed, special_tags. intro M. apply orb_true_iff in M. destruct M as [M|M].
+  - apply orb_true_iff in M. destruct M as [M|M]; apply N.eqb_eq in M; subst; [left|right; left]; reflexivity.
+  - apply existsb_exists in M. destruct M as (l & I & E). apply N.eqb_eq in E. subst t.
+    right. right. apply in_map. exact I.
+Qed.
+
+Lemma wf_root_b_ok m root : wf_root_b m root = true -> wf_root m root.
+Proof.
+  intros B t M. unfold wf_root_b in B. rewrite forallb_forall in B.
+  apply Nat.leb_le. apply B. apply managed_special. exact M.
+Qed.
+
+Lemma nodup_b_ok l : nodup_b l = true -> NoDup l.
+Proof.
+  induction l as [|x r IH]; intro B; [constructor|]. simpl in B. apply andb_true_iff in B. destruct B as [B1 B2].
+  constructor; [|apply IH; exact B2]. intro I. apply negb_true_iff in B1.
+  assert (X : existsb (N.eqb x) r = true) by (apply existsb_exists; exists x; split; [exact I|apply N.eqb_refl]).
+  congruence.
+Qed.
+
+Lemma wf_libs_b_ok m : wf_libs_b m = true -> wf_libs m.
+Proof.
+  unfold wf_libs_b, special_tags. intro B. apply andb_true_iff in B. destruct B as [B _].
+  apply nodup_b_ok in B. inversion B as [|? ? N1 B1]; subst. inversion B1 as [|? ? N2 B2]; subst.
+  split; [exact B2|]. split.
+  - intro I. apply N1. right. exact I.
+  - exact N2.
+Qed.
+
+Lemma healthy_b_ok m : healthy_b m = true -> healthy m.
+Proof. unfold healthy_b, healthy. destruct (mscene m); [exact (fun x => x)|intros _; exact I]. Qed.
